@@ -133,8 +133,6 @@ def run_read(kind: str, data: bytes, cuts: list, ending: str, schedule: str, lim
                     results.append(("ok", r))
                 except TransportError as exc:
                     results.append(("err", type(exc).__name__))
-                    if limit < 64:
-                        return
                 except BaseException as exc:  # noqa: BLE001
                     results.append(("foreign", type(exc).__name__, str(exc)))
                     return
@@ -169,20 +167,38 @@ def run_read(kind: str, data: bytes, cuts: list, ending: str, schedule: str, lim
                 return viols
         # compare with the reference
         if limit < 64:
-            if not results or results[-1][0] != "err":
-                bad("no-final-error", f"the stream ended but the last read did not raise a transport error: {results}")
+            # over-long lines: everything before the first error must be the correct prefix, in order;
+            # whatever is returned after an error must still be lines of the stream, in order
+            if not any(r[0] == "err" for r in results):
+                bad("no-final-error", f"the stream ended but no read raised a transport error: {results}")
                 return viols
-            body = results[:-1]
-            # over-long lines: everything before the first error must be the correct prefix, in order
+            first = next(i for i, r in enumerate(results) if r[0] == "err")
+            body = results[:first]
             k = len(body)
             want = exp[:k]
             ok = k <= len(exp) and all(w[0] == "ok" and g[0] == "ok" and g[1] in (w[1], w[1] + "\n") for g, w in zip(body, want))
             if not ok:
                 bad("lines-differ", f"reads before the first error {body} are not the leading lines {exp}")
-            # the error must not come early: it is due at the first err entry of exp, or at the end
             first_err = next((i for i, w in enumerate(exp) if w[0] == "err"), len(exp))
             if k < first_err and not _limit_could_trip(data, limit, k):
                 bad("early-error", f"transport error after {k} lines although line {k} is fine: {results}")
+            all_lines = []
+            for seg in data.split(b"\n")[:-1]:
+                try:
+                    all_lines.append(seg.decode("utf-8"))
+                except UnicodeDecodeError:
+                    all_lines.append(None)
+            pos = 0
+            for r in results:
+                if r[0] != "ok":
+                    continue
+                text = r[1][:-1] if r[1].endswith("\n") else r[1]
+                while pos < len(all_lines) and all_lines[pos] != text:
+                    pos += 1
+                if pos >= len(all_lines):
+                    bad("phantom-line", f"a read returned {r[1]!r}, which is not a (further) line of the stream; results {results}")
+                    break
+                pos += 1
             return viols
         def matches(g, w) -> bool:
             if w[0] == "ok":
